@@ -201,7 +201,7 @@ func c11(c *Ctx) {
 		m := bits.Run(p, fn)
 		ok := false
 		var seen []string
-		for _, ci := range m.Cmps {
+		for _, ci := range cmpsWithCallees(p, fn) {
 			if vecMatches(ci.Vec, "recv.pictureID.15-0") && ci.Const != 0 {
 				seen = append(seen, ci.Op.String()+" "+u64s([]uint64{ci.Const}))
 				if (ci.Op.String() == "<" && ci.Const == 128) || (ci.Op.String() == "<=" && ci.Const == 127) || (ci.Op.String() == ">=" && ci.Const == 128) || (ci.Op.String() == ">" && ci.Const == 127) {
@@ -299,7 +299,7 @@ func c12(c *Ctx) {
 				}
 			}
 		}
-		for _, ci := range m.Cmps {
+		for _, ci := range cmpsWithCallees(p, fn) {
 			if (ci.Op.String() == ">=" && ci.Const == 0x8000) || (ci.Op.String() == ">" && ci.Const == 0x7FFF) {
 				okWrap = true
 			}
